@@ -91,6 +91,10 @@ func loadWorld(repo string) (*World, error) {
 		if overlay == nil {
 			break
 		}
+		lastGood := map[string][]byte{}
+		for k, v := range overlayAll {
+			lastGood[k] = v
+		}
 		for k, v := range overlay {
 			overlayAll[k] = v
 		}
@@ -106,6 +110,13 @@ func loadWorld(repo string) (*World, error) {
 					os.WriteFile("/tmp/kpinline_"+strings.ReplaceAll(strings.TrimPrefix(k, repo+"/"), "/", "_"), v, 0o644)
 				}
 				fmt.Fprintln(os.Stderr, ferr)
+			}
+			if round > 0 {
+				// (the syntax trees of the last good round were rewritten in place by the attempt that failed: load them again)
+				overlayAll = lastGood
+				if pkgs, err = loadOnce(overlayAll); err != nil {
+					return nil, err
+				}
 			}
 			if round == 0 {
 				if pkgs, err = loadOnce(nil); err != nil {
@@ -129,8 +140,18 @@ func loadWorld(repo string) (*World, error) {
 			os.WriteFile(d+"/"+strings.ReplaceAll(strings.TrimPrefix(k, repo+"/"), "/", "_"), v, 0o644)
 		}
 	}
-	prog, spkgs := ssautil.AllPackages(pkgs, ssa.InstantiateGenerics)
-	prog.Build()
+	prog, spkgs := ssautil.AllPackages(pkgs, ssa.InstantiateGenerics|ssa.BuildSerially)
+	if perr := func() (e error) {
+		defer func() {
+			if r := recover(); r != nil {
+				e = fmt.Errorf("building the SSA form panicked: %v", r)
+			}
+		}()
+		prog.Build()
+		return nil
+	}(); perr != nil {
+		return nil, perr
+	}
 	w := &World{repo: repo, fset: pkgs[0].Fset, pkgs: pkgs, prog: prog, ssaPkgs: map[string]*ssa.Package{}, loadNotes: loadNotes}
 	for i, p := range pkgs {
 		if spkgs[i] == nil {
